@@ -10,15 +10,15 @@ Proof. intros s g H. unfold model_cast. rewrite H. reflexivity. Qed.
 Lemma model_fmt_agrees : fmt_agrees model_fmt.
 Proof. intros x s H. unfold model_fmt. rewrite H. reflexivity. Qed.
 
-(* The full reading of "numeric fields as numbers, ALL others as text" is false of the loader:
-   the field T is neither a number nor read back as text. *)
+(* The full reading of "numeric fields as numbers, ALL others as text" is false of the loader at the level of the
+   typed cell: the field T is neither a number nor loaded as a text cell (it is a bool). *)
 Lemma c20_typed_refuted :
-  exists cast fmt recs t col row,
+  exists cast recs t col row,
     cast_agrees cast /\ rectangular recs = true /\ loads cast recs t /\
     col < n_cols recs /\ row < n_rows recs /\
-    ~ typed_faithfully cast fmt recs t col row.
+    ~ typed_faithfully cast recs t col row.
 Proof.
-  exists model_cast, model_fmt, [["a"%string]; ["T"%string]].
+  exists model_cast, [["a"%string]; ["T"%string]].
   eexists. exists 0, 0.
   split; [exact model_cast_agrees|].
   split; [reflexivity|].
@@ -174,10 +174,4 @@ Proof.
   intros s Hh Hc. unfold go_cast. rewrite (hexcolon_modelled _ Hh). cbn [negb].
   rewrite (parse_dec_none_of_other_char (chars s) ":" Hc eq_refl).
   unfold bool_or_text. rewrite (parse_bool_none_of_colon s Hc). reflexivity.
-Qed.
-
-Lemma colon_encoding_stable : forall s, forallb hexcolon (chars s) = true -> In ":" (chars s) ->
-  cast_stable s = true.
-Proof.
-  intros s Hh Hc. unfold cast_stable, rendered. rewrite (colon_encoding_is_text s Hh Hc). apply String.eqb_refl.
 Qed.
